@@ -111,6 +111,10 @@ structure Env where
   f : Nat → Outcome
   /-- result of each in-process decision (true = passes) -/
   g : Nat → Bool
+  /-- a database that stores certificates and revocations is configured; `false` = the
+      authority runs on `db.SimpleDB` (`db.New(nil)`): tokens are remembered in memory, every
+      store / revoke method returns `ErrNotImplemented`, nothing is an external call -/
+  db : Bool := true
 
 inductive R where
   | next (s : St)
@@ -140,7 +144,22 @@ def addCert (s : St) (withData : Bool) : St :=
   { s with d := { s.d with certs := s.d.certs + 1, datas := s.d.datas + (if withData then 1 else 0) } }
 def addRev (s : St) : St := { s with d := { s.d with revoked := true } }
 
-def exec (e : Env) (s : St) : Kind → R
+/-- the steps that go to the authority database -/
+def Kind.isStore : Kind → Bool
+  | .useToken | .isRevoked | .readCert | .readData | .store | .storeRev => true
+  | _ => false
+
+/-- `db.SimpleDB`: `UseToken` works on an in-memory map; `IsRevoked` answers "no"; reads and
+    `StoreCertificate` return `ErrNotImplemented`, which `signX509` / `renewContext` /
+    `signSSH` … let through (`!errors.Is(err, db.ErrNotImplemented)`); `Revoke` returns
+    `ErrNotImplemented`, which `Authority.Revoke` turns into a 501. -/
+def execMem (s : St) : Kind → R
+  | .useToken => if s.d.tokenSpent then .abort s else .next (spend s)
+  | .storeRev => .abort s
+  | _ => .next s
+
+/-- a step against a real database / webhook / in-process decision -/
+def execDB (e : Env) (s : St) : Kind → R
   | .useToken =>
     let r := call e s .useToken
     match r.1 with
@@ -199,6 +218,9 @@ def exec (e : Env) (s : St) : Kind → R
     | .ok => .next { r.2 with d := { r.2.d with orderValid := true } }
     | .timeout => .abort { r.2 with d := { r.2.d with orderValid := true } }
     | _ => .abort r.2
+
+def exec (e : Env) (s : St) (k : Kind) : R :=
+  if e.db = false ∧ k.isStore = true then execMem s k else execDB e s k
 
 /-- Execute the steps in order; the first step that refuses ends the request
     (`if err != nil { return nil, err }`).  Second component: ran to completion. -/
